@@ -1,7 +1,65 @@
-(* C04 -- property theorems only: each is closed by [exact] of a lemma proved elsewhere. *)
+(* C04 -- property theorems only: each is closed by [exact] of a lemma proved elsewhere.
+   Model: Refl/{Base,Tree,Matcher,Traverse,Session,Server,Mirror}.v.  Premises: the class MatchLaws (Refl/BaseProofs.v:
+   laws of the external wildcard matcher), the history condition wf_run (a session arrives under a fresh
+   (host, session-name) pair) and fewer than 2^31-1 SUBSCRIBE: items in the history (uint32/int32 counts). *)
 From Coq Require Import List NArith ZArith.
-From Muscle Require Import Refl.Base Refl.Tree Refl.TreeProofs.
+From Muscle Require Import Refl.Base Refl.BaseProofs Refl.Tree Refl.TreeProofs Refl.Matcher Refl.MatcherProofs
+     Refl.Traverse Refl.TraverseSpec Refl.Session Refl.Server Refl.ServerProofs Refl.RefcountProofs
+     Refl.Concrete Refl.Examples.
 
-Theorem C04_tbl_get_put_same : forall t s c, tbl_get (tbl_put t s c) s = c.
-Proof. exact tbl_get_put_same. Qed.
-Print Assumptions C04_tbl_get_put_same.
+(* refcount_inv (full): in every reachable state, for every node n and session id s, the node's subscriber table
+   holds for s exactly the number of s's subscription paths that match n (GetMatchCount of s's _subscriptions;
+   0 for an id that is no attached session). *)
+Theorem C04_refcount_inv :
+  forall (M : MatchOps) (L : MatchLaws M) (fx : fixes), fx_guard fx = true ->
+  forall evs : list event,
+  wf_run fx empty_server evs -> small (run_budget evs) ->
+  forall (n : node) (s : sid), In n (sv_tree (run fx evs empty_server)) ->
+  tbl_get (n_subs n) s = subscribed_count (run fx evs empty_server) s (n_path n).
+Proof. exact @refcount_inv. Qed.
+Print Assumptions C04_refcount_inv.
+
+(* the subscriber tables hold each session at most once and no zero counts *)
+Theorem C04_refcount_tables_ok :
+  forall (M : MatchOps) (L : MatchLaws M) (fx : fixes), fx_guard fx = true ->
+  forall evs : list event,
+  wf_run fx empty_server evs -> small (run_budget evs) ->
+  forall n : node, In n (sv_tree (run fx evs empty_server)) -> tbl_ok (n_subs n).
+Proof. exact @refcount_tables_ok. Qed.
+Print Assumptions C04_refcount_tables_ok.
+
+(* the node tree stays a tree: distinct paths, every ancestor present *)
+Theorem C04_tree_wf :
+  forall (M : MatchOps) (L : MatchLaws M) (fx : fixes), fx_guard fx = true ->
+  forall evs : list event,
+  wf_run fx empty_server evs -> small (run_budget evs) -> wf_tree (sv_tree (run fx evs empty_server)).
+Proof. exact @tree_wf_inv. Qed.
+Print Assumptions C04_tree_wf.
+
+(* traversal_eq_bruteforce for callbacks that go on (the repaired guard): DoTraversal calls back exactly on the nodes
+   below the start node that MatchesNode accepts, each once *)
+Theorem C04_traversal_visits_exactly_matching :
+  forall (M : MatchOps) (L : MatchLaws M) (t : tree) (m : matcher) (root : path) (uf : bool) (n : node),
+  wf_tree t -> wf_groups (m_groups m) ->
+  (In n (visits t m root uf true) <->
+   In n t /\ (exists r, r <> nil /\ n_path n = root ++ r)
+   /\ matches_node m (n_path n) (dsel uf n) (length root) = true).
+Proof. exact @visits_spec. Qed.
+Print Assumptions C04_traversal_visits_exactly_matching.
+
+Theorem C04_traversal_visits_once :
+  forall (M : MatchOps) (L : MatchLaws M) (t : tree) (m : matcher) (root : path) (uf : bool),
+  wf_tree t -> NoDup (visits t m root uf true).
+Proof. exact @visits_nodup. Qed.
+Print Assumptions C04_traversal_visits_once.
+
+(* non-vacuity: the premises hold of a concrete matcher instance and a history with overlapping subscriptions *)
+Example C04_premises_satisfiable :
+  wf_run all_fixed empty_server ex1 /\ small (run_budget ex1).
+Proof. exact ex1_premises. Qed.
+Example C04_state_nontrivial :
+  length (sv_tree ex1_state) = 7
+  /\ option_map (fun n => tbl_get (n_subs n) 0%N) (find_node (sv_tree ex1_state) (1 :: 11 :: 21 :: nil)%N) = Some 1%N
+  /\ option_map (fun n => tbl_get (n_subs n) 0%N)
+       (find_node (sv_tree (run all_fixed (firstn 4 ex1) empty_server)) (1 :: 11 :: 21 :: nil)%N) = Some 2%N.
+Proof. exact ex1_nontrivial. Qed.
